@@ -32,6 +32,14 @@ pub type F64x1100 = Bvf<u64, 1100>;
 /// that indexes word 0 or computes N - 1 without looking at N shows here.
 pub type F8x0 = Bvf<u8, 0>;
 pub type F64x0 = Bvf<u64, 0>;
+/// The crate's remaining named aliases (Bv256 ... Bv512: 4 to 8 u64 words, so every N % 8 up to
+/// 7 and a capacity of exactly 512 bits) and a three-word u128 shape (a middle word).
+pub type F64x4 = Bvf<u64, 4>;
+pub type F64x5 = Bvf<u64, 5>;
+pub type F64x6 = Bvf<u64, 6>;
+pub type F64x7 = Bvf<u64, 7>;
+pub type F64x8 = Bvf<u64, 8>;
+pub type F128x3 = Bvf<u128, 3>;
 
 /// One value of any zoo type.
 #[derive(Clone, Debug)]
@@ -59,6 +67,12 @@ pub enum Z {
     F64x1100(Box<F64x1100>),
     F8x0(F8x0),
     F64x0(F64x0),
+    F64x4(F64x4),
+    F64x5(F64x5),
+    F64x6(F64x6),
+    F64x7(F64x7),
+    F64x8(F64x8),
+    F128x3(F128x3),
 }
 
 /// Lets `z_match!` bind the content of a boxed variant like an unboxed one, whether `Z` is
@@ -88,31 +102,32 @@ impl<'a, T> Unbox for &'a mut Box<T> {
 
 /// Index of a zoo type, 0..NT.
 pub type Tid = u8;
-pub const NT: u8 = 23;
+pub const NT: u8 = 29;
 /// Number of routine zoo types (all but the 70 400-bit one, which has its own enumerations).
 pub const NT_R: u8 = 20;
 /// The routine zoo types: everything except the 70 400-bit one (which has its own enumerations).
-pub const ROUTINE_TIDS: [Tid; 22] = [0, 1, 2, 3, 4, 5, 6, 7, 8, 9, 10, 11, 12, 13, 14, 15, 16, 17, 18, 19, 21, 22];
+pub const ROUTINE_TIDS: [Tid; 28] = [0, 1, 2, 3, 4, 5, 6, 7, 8, 9, 10, 11, 12, 13, 14, 15, 16, 17, 18, 19, 21, 22, 23, 24, 25, 26, 27, 28];
 /// The routine fixed types.
-pub const ROUTINE_FIXED: [Tid; 20] = [0, 1, 2, 3, 4, 5, 6, 7, 8, 9, 10, 11, 12, 13, 14, 15, 18, 19, 21, 22];
+pub const ROUTINE_FIXED: [Tid; 26] = [0, 1, 2, 3, 4, 5, 6, 7, 8, 9, 10, 11, 12, 13, 14, 15, 18, 19, 21, 22, 23, 24, 25, 26, 27, 28];
 /// The fixed zoo types (tid 18 was added after 16/17 had been taken by Bvd/Bv; the numbering is
 /// kept stable because replay files store it).
-pub const FIXED_TIDS: [Tid; 21] = [0, 1, 2, 3, 4, 5, 6, 7, 8, 9, 10, 11, 12, 13, 14, 15, 18, 19, 20, 21, 22];
+pub const FIXED_TIDS: [Tid; 27] = [0, 1, 2, 3, 4, 5, 6, 7, 8, 9, 10, 11, 12, 13, 14, 15, 18, 19, 20, 21, 22, 23, 24, 25, 26, 27, 28];
 /// The 70 400-bit fixed type: operations on it cost three orders of magnitude more than on the
 /// crate's aliases, so generators pick it rarely and sweeps sample its lengths.
 pub const TID_HUGE: Tid = 20;
 pub const TID_D: Tid = 16;
 pub const TID_A: Tid = 17;
 
-pub const NAMES: [&str; 23] = [
+pub const NAMES: [&str; 29] = [
     "Bvf<u8,1>", "Bvf<u8,2>", "Bvf<u8,3>", "Bvf<u8,9>", "Bvf<u8,17>", "Bvf<u16,1>", "Bvf<u16,3>",
     "Bvf<u32,1>", "Bvf<u32,3>", "Bvf<u64,1>", "Bvf<u64,2>", "Bvf<u64,3>", "Bvf<u128,1>",
     "Bvf<u128,2>", "Bvf<usize,1>", "Bvf<usize,2>", "Bvd", "Bv", "Bvf<u32,80>", "Bvf<u16,10>", "Bvf<u64,1100>", "Bvf<u8,0>", "Bvf<u64,0>",
+    "Bvf<u64,4>", "Bvf<u64,5>", "Bvf<u64,6>", "Bvf<u64,7>", "Bvf<u64,8>", "Bvf<u128,3>",
 ];
 /// Storage word width in bits (Bvd and Bv: 64).
-pub const WORD_BITS: [usize; 23] = [8, 8, 8, 8, 8, 16, 16, 32, 32, 64, 64, 64, 128, 128, 64, 64, 64, 64, 32, 16, 64, 8, 64];
+pub const WORD_BITS: [usize; 29] = [8, 8, 8, 8, 8, 16, 16, 32, 32, 64, 64, 64, 128, 128, 64, 64, 64, 64, 32, 16, 64, 8, 64, 64, 64, 64, 64, 64, 128];
 /// Number of words for fixed types (0 for Bvd / Bv).
-pub const NWORDS: [usize; 23] = [1, 2, 3, 9, 17, 1, 3, 1, 3, 1, 2, 3, 1, 2, 1, 2, 0, 0, 80, 10, 1100, 0, 0];
+pub const NWORDS: [usize; 29] = [1, 2, 3, 9, 17, 1, 3, 1, 3, 1, 2, 3, 1, 2, 1, 2, 0, 0, 80, 10, 1100, 0, 0, 4, 5, 6, 7, 8, 3];
 /// Inline capacity of `Bv` on this (64-bit) platform.
 pub const BV_INLINE: usize = 128;
 
@@ -162,6 +177,12 @@ macro_rules! z_match {
             }
             $crate::Z::F8x0($v) => $body,
             $crate::Z::F64x0($v) => $body,
+            $crate::Z::F64x4($v) => $body,
+            $crate::Z::F64x5($v) => $body,
+            $crate::Z::F64x6($v) => $body,
+            $crate::Z::F64x7($v) => $body,
+            $crate::Z::F64x8($v) => $body,
+            $crate::Z::F128x3($v) => $body,
         }
     };
 }
@@ -194,6 +215,12 @@ macro_rules! tid_match {
             20 => { type $T = $crate::F64x1100; $body }
             21 => { type $T = $crate::F8x0; $body }
             22 => { type $T = $crate::F64x0; $body }
+            23 => { type $T = $crate::F64x4; $body }
+            24 => { type $T = $crate::F64x5; $body }
+            25 => { type $T = $crate::F64x6; $body }
+            26 => { type $T = $crate::F64x7; $body }
+            27 => { type $T = $crate::F64x8; $body }
+            28 => { type $T = $crate::F128x3; $body }
             _ => unreachable!("bad tid"),
         }
     };
@@ -516,7 +543,7 @@ impl_subject_fixed! {
     0, F8x1, F8x1; 1, F8x2, F8x2; 2, F8x3, F8x3; 3, F8x9, F8x9; 4, F8x17, F8x17;
     5, F16x1, F16x1; 6, F16x3, F16x3; 7, F32x1, F32x1; 8, F32x3, F32x3;
     9, F64x1, F64x1; 10, F64x2, F64x2; 11, F64x3, F64x3; 12, F128x1, F128x1; 13, F128x2, F128x2;
-    14, Fszx1, Fszx1; 15, Fszx2, Fszx2; 18, F32x80, F32x80; 19, F16x10, F16x10; 21, F8x0, F8x0; 22, F64x0, F64x0;
+    14, Fszx1, Fszx1; 15, Fszx2, Fszx2; 18, F32x80, F32x80; 19, F16x10, F16x10; 21, F8x0, F8x0; 22, F64x0, F64x0; 23, F64x4, F64x4; 24, F64x5, F64x5; 25, F64x6, F64x6; 26, F64x7, F64x7; 27, F64x8, F64x8; 28, F128x3, F128x3;
 }
 
 macro_rules! impl_subject_fixed_boxed {
